@@ -181,6 +181,7 @@ let mwops_of (s : string) : mwop list =
         | 's' -> let (k, v) = kv_of (tail1 f) in Some (MSet (k, v))
         | 'x' -> Some (MDel (bytes_of_hex (tail1 f)))
         | 'I' -> Some MBadInit
+        | 'C' -> Some OCloseFails
         | _ -> failwith "mw") (split_on ',' s)
 
 let predict_m (c : string) (obs : string) : string * string * bool =
@@ -200,13 +201,17 @@ let predict_m (c : string) (obs : string) : string * string * bool =
         (match split_blank obs with
          | ["S"; a; b; c; d; "P"; e; f; g; h] -> (int_of_string a, b, c, d, int_of_string e, f, g, h)
          | _ -> (0, "-", "?", "?", 0, "-", "?", "?")) in
-      let cancel_m = if cancel = "-" then None else Some (int_of_string cancel) in
+      (* D<n>: the context ends the way one with a deadline does; Run must then return THAT context's error *)
+      let deadline = String.length cancel > 0 && cancel.[0] = 'D' in
+      let cancel_m = if cancel = "-" then None else Some (int_of_string (if deadline then tail1 cancel else cancel)) in
+      let ctx_class s = if not deadline then s else if s = "canceled" then "deadline" else s in
+      let runclass_of s = if deadline && s = "deadline" then RCanceled else runclass_of s in
       let bnd = (match bound (nat_of_int lim) (nat_of_int pas) (nat_of_int src_len) with Some b -> Some (int_of_nat b) | None -> None) in
       let fuel cnt = nat_of_int (60 * ((max cnt (match bnd with Some b -> b | None -> 0)) + 1) * (n + 2)) in
       let render_m ((l, o), cl) =
         let l = List.map (fun (c, r) -> render_view (view_m uri_like c r)) l in
         Printf.sprintf "%d %s %s %s" (List.length l) (if l = [] then "-" else String.concat "," l)
-          (if cl then "closed" else "blocked") (out_class o) in
+          (if cl then "closed" else "blocked") (ctx_class (out_class o)) in
       let run preload cancel cnt = render_m (deliver_m k preload (nat_of_int lim) (nat_of_int pas) cfgh items chb ops cancel (fuel cnt)) in
       let one preload ocount oline =
         (match cancel_m with
@@ -224,9 +229,10 @@ let predict_m (c : string) (obs : string) : string * string * bool =
       let views s = List.map view_of_obs (split_on ',' s) in
       let ok = spec14m_b uri_like (nat_of_int lim) (nat_of_int pas) cfgh items chb ops
           (match cancel_m with None -> None | Some m -> Some (nat_of_int m))
-          (views ss) (views ps) (sa = "closed") (pa = "closed") (runclass_of sr) (runclass_of pr) in
+          (views ss) (views ps) (sa = "closed") (pa = "closed") (runclass_of sr) (runclass_of pr)
+               && sr = pr in
       let why =
-        if init_fails ops then "a middleware cannot start: want nothing delivered, sink closed, Run fails, on both paths"
+        if init_fails ops then "a middleware cannot start: want the same end on both paths"
         else if sline <> pline then "preload on and off differ"
         else if src_len = 0 then "nothing matches: want nothing delivered, sink closed, Run returns"
         else "want the " ^ string_of_int src_len ^ " chosen entries replayed cyclically, every request = the middlewares applied once to the headers of the entry's own line"
